@@ -302,26 +302,59 @@ fn reversed_maps(v: &Value) -> Value {
 }
 
 /// Inputs on which `Vec::with_capacity(declared_len)` could abort or panic are C13's business;
-/// they are skipped here so that the harness process survives.
+/// they are skipped here so that the harness process survives.  Structural walk: follows heads the
+/// way the decoder does (ignoring canonicity) and reports an array/map head whose declared length
+/// exceeds LIMIT at a position the decoder can reach.
 fn alloc_risky(b: &[u8]) -> bool {
-    const LIMIT: u64 = 1 << 20;
-    for i in 0..b.len() {
-        let c = b[i];
-        if (c == 0x9a || c == 0xba) && b.len() - i > 4 {
-            let n = u32::from_be_bytes([b[i + 1], b[i + 2], b[i + 3], b[i + 4]]) as u64;
-            if n > LIMIT {
-                return true;
-            }
+    const LIMIT: u64 = 1 << 16;
+    // returns Some(next index) to continue, None to stop (decoder would fail here or input ended)
+    fn walk(b: &[u8], i: usize, risky: &mut bool, depth: usize) -> Option<usize> {
+        if i >= b.len() || depth > 200 {
+            return None;
         }
-        if (c == 0x9b || c == 0xbb) && b.len() - i > 8 {
-            let mut a = [0u8; 8];
-            a.copy_from_slice(&b[i + 1..i + 9]);
-            if u64::from_be_bytes(a) > LIMIT {
-                return true;
+        let major = b[i] >> 5;
+        let info = b[i] & 0x1f;
+        let (arg, mut j) = match info {
+            0..=23 => (info as u64, i + 1),
+            24..=27 => {
+                let w = 1usize << (info - 24);
+                if b.len() - (i + 1) < w {
+                    return None;
+                }
+                let mut v = 0u64;
+                for k in 0..w {
+                    v = (v << 8) | b[i + 1 + k] as u64;
+                }
+                (v, i + 1 + w)
             }
+            _ => return None,
+        };
+        match major {
+            0 | 1 | 7 => Some(j),
+            2 | 3 => {
+                if ((b.len() - j) as u64) < arg {
+                    None
+                } else {
+                    Some(j + arg as usize)
+                }
+            }
+            4 | 5 => {
+                if arg > LIMIT {
+                    *risky = true;
+                    return None;
+                }
+                let n = if major == 4 { arg } else { arg * 2 };
+                for _ in 0..n {
+                    j = walk(b, j, risky, depth + 1)?;
+                }
+                Some(j)
+            }
+            _ => None,
         }
     }
-    false
+    let mut risky = false;
+    let _ = walk(b, 0, &mut risky, 0);
+    risky
 }
 
 // ------------------------------------------------------------------ ABI CBOR modes
@@ -550,17 +583,21 @@ fn fl(list: &str) -> String {
             };
             (a, b)
         };
-        // is_exact_int as written in canonical.rs
-        let exact = !(f.is_infinite() || f.is_nan()) && f.fract() == 0.0 && ((f as i128) as f64 == f);
-        let iv = if exact {
-            let i = f as i128;
-            if i < 0 {
-                format!("-{:x}", i.unsigned_abs())
-            } else {
-                format!("+{:x}", i)
-            }
-        } else {
-            "-".into()
+        // the integer path of enc_float / is_exact_int, observed through the public encoder:
+        // the float is "exactly an integer" iff encode_value emits major type 0 or 1
+        let iv = match encode_value(&Value::Float(f)) {
+            Ok(e) if !e.is_empty() && (e[0] >> 5) <= 1 => match decode_value(&e) {
+                Ok(Value::Integer(n)) => {
+                    let i = i128::from(n);
+                    if i < 0 {
+                        format!("-{:x}", i.unsigned_abs())
+                    } else {
+                        format!("+{:x}", i)
+                    }
+                }
+                _ => "?".into(),
+            },
+            _ => "-".into(),
         };
         out.push(format!("{}/{}/{}", n16, n32, iv));
     }
